@@ -35,6 +35,7 @@
     now has [step_code VRaised = Some FAILED_SEC] and the no-exception guard is gone. *)
 From Coq Require Import NArith List Bool.
 From DTN Require Import Model.BpSecChain Proofs.BpSecChainProofs.
+From DTN Require Import Gen.BpsecLoops Proofs.BpsecLoopsProofs.
 Import ListNotations.
 Local Open Scope N_scope.
 
@@ -176,3 +177,69 @@ Theorem C12_verdict_on_current_target_data :
     match open (m_auth m) (btsd_of t data) with Some p => TOk p | None => TFail FAILED_SEC end.
 Proof. exact verdict_on_current_data. Qed.
 Print Assumptions C12_verdict_on_current_target_data.
+
+(** * Tie to the source: the loop structure the translator reads off bp/app/bpsec.py (Gen/BpsecLoops.v,
+    regenerated on every run; any other shape of the loops makes the translator fail closed).
+
+    (1) [Bpsec._verify_bcb] / [_verify_bib] iterate over a snapshot of [ctr.block_type(...)]: the chain with
+        the iteration kinds of the source IS [recv_sec], so the fail-closed theorem holds for it.  (Were either
+        generated boolean [false] - iteration over the live list - this proof would not type-check;
+        [C12_live_walk_skips_a_block] shows what would go wrong.) *)
+Theorem C12_source_chain_fail_closed :
+  forall (c : cfg) (secs : list secblk) (data : datamap),
+    (exists s, In s secs /\ s_visible s = true /\ blk_result s <> VNone) ->
+    (forall s code, In s secs -> s_visible s = true -> blk_result s = VCode code -> sec_reason code = true) ->
+    let r := recv_sec_as verify_bcb_iterates_snapshot verify_bib_iterates_snapshot c secs data in
+    r_reached r = false /\ r_app r = None /\ exists code, r_out r = Deleted code /\ 12 <= code <= 16.
+Proof. exact source_chain_fail_closed. Qed.
+Print Assumptions C12_source_chain_fail_closed.
+
+Theorem C12_snapshot_walk_counts_every_block :
+  forall (c : cfg) (l : list secblk) (v : view) (s : secblk),
+    In s l -> blk_result s <> VNone -> snd (verify_all c l v) <> [].
+Proof. exact snapshot_counts_every_block. Qed.
+Print Assumptions C12_snapshot_walk_counts_every_block.
+
+Theorem C12_live_walk_skips_a_block :
+  exists (c : cfg) (secs : list secblk) (v : view) (s : secblk),
+    In s secs /\ blk_result s <> VNone /\ snd (verify_live (S (length secs)) c secs false 0 v) = [].
+Proof. exact live_skips_a_block. Qed.
+Print Assumptions C12_live_walk_skips_a_block.
+
+(** (2) [CoseContext.verify_bib] / [verify_bcb] look the result of every target up by its index: with the loop
+        kinds of the source every target is visited, and a target that has no result makes the block fail. *)
+Theorem C12_source_target_loop_covers_every_target :
+  forall (R : Type) (targets : list N) (results : list R),
+    map fst (target_loop R verify_bib_results_by_index targets results) = targets
+    /\ map fst (target_loop R verify_bcb_results_by_index targets results) = targets.
+Proof. exact source_target_loop_covers. Qed.
+Print Assumptions C12_source_target_loop_covers_every_target.
+
+Theorem C12_source_target_without_result_fails :
+  forall (R : Type) (judge : N -> R -> tres) (targets : list N) (results : list R) (t : N) (k : nat),
+    nth_error targets k = Some t -> nth_error results k = None ->
+    tgts_result (verdicts R judge (target_loop R verify_bib_results_by_index targets results)) <> VNone
+    /\ tgts_result (verdicts R judge (target_loop R verify_bcb_results_by_index targets results)) <> VNone.
+Proof. exact source_target_without_result_fails. Qed.
+Print Assumptions C12_source_target_without_result_fails.
+
+Theorem C12_zip_skips_a_target :
+  exists (targets : list N) (results : list N) (t : N),
+    In t targets /\ ~ In t (map fst (target_loop N false targets results))
+    /\ tgts_result (verdicts N (fun _ r => TOk r) (target_loop N false targets results)) = VNone.
+Proof. exact zip_skips_a_target. Qed.
+Print Assumptions C12_zip_skips_a_target.
+
+Theorem C12_zip_covers_only_the_shorter_list :
+  forall (R : Type) (targets : list N) (results : list R),
+    length (target_loop R false targets results) = Nat.min (length targets) (length results).
+Proof. exact by_zip_length. Qed.
+Print Assumptions C12_zip_covers_only_the_shorter_list.
+
+(** (3) an exception escaping [ctx.verify_bib] / [ctx.verify_bcb] is entered into the failure list as FAILED_SEC,
+        which is what the model's [step_code VRaised] says. *)
+Theorem C12_source_exception_is_failed_sec :
+  exception_code verify_bib_exception_failed_sec = step_code VRaised
+  /\ exception_code verify_bcb_exception_failed_sec = step_code VRaised.
+Proof. exact source_exception_is_failed_sec. Qed.
+Print Assumptions C12_source_exception_is_failed_sec.
